@@ -64,6 +64,15 @@ async def run_async(scn):
             await gates(tag, elems[tag - 1]['meth'])
             return self.current
 
+    class V0(ViewMixin):
+        """a view registered WITHOUT a context: still one instance per request"""
+
+        async def view0(self, tag):
+            self.current = tag
+            ev.append({'ev': 'Exec', 'tag': tag})
+            await gates(tag, elems[tag - 1]['meth'])
+            return self.current
+
     def plain(tag):
         ev.append({'ev': 'Exec', 'tag': tag})
         return tag
@@ -94,6 +103,7 @@ async def run_async(scn):
     d = AsyncDispatcher(middlewares=[eager, probe] if scn.get('eager') else [probe], error_handlers={None: [eh], 1000: [eh2]}, concurrent_batch=scn['concurrent'])
     d.add(fail2, 'fail2')
     d.registry.view(V, context='context')
+    d.registry.view(V0)
     d.add(ok, 'ok')
     d.add(fail, 'fail')
     d.add(plain, 'plain')
